@@ -43,6 +43,24 @@ def conversion_operands(P, chk):
         for roots, labs in q.variant_guards(b, bb):
             if any("strategy" in r.fields for r in roots):
                 arm = labs
+        if arm is None:
+            # the strategy was decided once before the loop into an Option that the call is guarded by:
+            # `let t = match conversion { Historical{target} => Some(target), _ => None }; .. if let Some(t) = t { convert(..) }`
+            arms = set()
+            for roots, labs in q.variant_guards(b, bb):
+                if labs != ("Some",) or not all(r.kind == "agg" and "Option::" in str(r.name) for r in roots):
+                    continue
+                for r in roots:
+                    if r.kind == "agg" and str(r.name).endswith("Option::Some") and r.site is not None:
+                        for roots2, labs2 in q.variant_guards(b, r.site):
+                            if any("strategy" in r2.fields for r2 in roots2):
+                                arms.add(labs2)
+                    elif r.kind == "agg" and str(r.name).endswith("Option::None"):
+                        pass
+                    else:
+                        arms.add(None)
+            if len(arms) == 1 and None not in arms:
+                arm = arms.pop()
         if arm == ("Historical",):
             ok = q.all_roots(b, date, lambda r: r.kind == "call" and r.fields[-1:] == ("date",) and str(r.name).endswith("::next")) \
                 and "now" not in sd and "target" in st and "amount" in sa
